@@ -42,6 +42,7 @@ def evaluate(ctx, tg, cases, impl, model):
             ctx.extra.setdefault("hypB_strong_probe_failures", []).append(dict(case=c.describe(), ops=bprobe[:3]))
             ctx.count("hypB-strong-probe-failed")
         reported = False
+        binv = False
         for k, r in enumerate(i):
             # property oracle on the implementation: result after the history == fresh object, bit for bit
             if not r["same"] and not reported:
@@ -53,14 +54,30 @@ def evaluate(ctx, tg, cases, impl, model):
                                  "".join(o[0] for o in s.ops[:-1]) or "<empty>", rs.get("diff", {}).get("buffer"), rs.get("diff", {}).get("index")),
                               case=s.replay(), observed=rs.get("diff"), expected="bit-identical to the fresh object",
                               sig=sig_of(s, len(s.ops) - 1, rs.get("diff")))
-            # monitor of hypothesis (B) on the object with the history
+            # monitor of the model's invariant / hypothesis (B) on the object with the history: cells the
+            # model says are never (re)written must still be zero.  A non-zero cell means the model no longer
+            # mirrors the code (or FFTW violates (B)); it is a failing input only together with a differing
+            # result, which the oracle above reports - otherwise conclude() reports it without one.
             B = r["B"]
-            if B["re"] != 0 or B["im"] != 0 or not B["wl_upper_zero"] or not B["ff_upper_zero"]:
-                ctx.violation("impl-oracle", "hypothesis (B) fails: cell floor(N/2) (or a higher cell) of the loss spectrum / form factor is "
-                              "no longer zero after call %d (%s)" % (k, r["kind"]), case=c.with_ops(c.ops[:k + 1]).replay(),
-                              observed=dict(re=str(B["re"]), im=str(B["im"]), wl_upper_zero=B["wl_upper_zero"], ff_upper_zero=B["ff_upper_zero"]),
-                              expected="zero", sig=dict(kind="hist", clause="hypB", N_kind=hc.ncat(c.N)))
-                break
+            if (B["re"] != 0 or B["im"] != 0 or not B["wl_upper_zero"] or not B["ff_upper_zero"]) and not binv:
+                binv = True
+                dis.append(dict(case=c.with_ops(c.ops[:k + 1]).replay(),
+                                detail=[dict(what="invariant: _wakelosses[N/2..] / _formfactor[N/2+1..] zero (hypothesis (B))", op=k, kind=r["kind"],
+                                             re=str(B["re"]), im=str(B["im"]), wl_upper_zero=B["wl_upper_zero"], ff_upper_zero=B["ff_upper_zero"])],
+                                sig=dict(kind="hist", stage="correspondence", what="hypB-invariant", N_kind=hc.ncat(c.N))))
+                ctx.count("hypB-invariant-broken")
+                if not reported:
+                    # search: does a further wakePotential() call with the same profile now differ from fresh?
+                    ext = c.with_ops(c.ops[:k + 1] + [("W", 0.0, c.ops[k][2])], "b")
+                    re_ = hc.run_impl(tg, [ext])["b"][-1]
+                    if not re_["same"]:
+                        reported = True
+                        s = shrink(ctx, tg, ext, len(ext.ops) - 1)
+                        rs = hc.run_impl(tg, [s])[s.cid][-1]
+                        ctx.violation("impl-oracle", "wakePotential() after the history %s differs from the same call on a freshly constructed object: "
+                                      "a cell of the loss spectrum that is never rewritten is no longer zero (hypothesis (B))" % "".join(o[0] for o in s.ops[:-1]),
+                                      case=s.replay(), observed=rs.get("diff"), expected="bit-identical to the fresh object",
+                                      sig=dict(sig_of(s, len(s.ops) - 1, rs.get("diff")), clause="hypB"))
         kinds = set(o[0] for o in c.ops)
         distinct = len(set(tuple(o[2]) for o in c.ops)) > 1
         ctx.case_done(c.cid, len(c.ops) >= 2 and distinct and "C" in kinds and (kinds & {"W", "P"}) and
@@ -115,10 +132,17 @@ def run(ctx, only=None):
     if only is not None:
         cases = only
     elif ctx.quick():
+        # fixed pool of transform lengths + a few lengths in 6..160 that change with the seed (monitor of (B))
+        extra = sorted(ctx.rng.sample(range(6, 161), 6))
         cases = corpus() + hc.gen_cases(ctx, 500, hc.POW2 + hc.COMPOSITE + hc.PRIME, 12)
+        for N in extra:
+            cases += hc.gen_cases(ctx, 3, [N], 6, prefix="x%d_" % N)
     else:
         cases = corpus() + hc.gen_cases(ctx, 2500, hc.POW2 + hc.COMPOSITE + hc.PRIME, 12) + \
             hc.gen_cases(ctx, 300, hc.POW2_T + hc.COMPOSITE_T + hc.PRIME_T, 24, prefix="t")
+        for N in range(6, 201):          # every transform length 6..200: monitor of (B), clobbering
+            cases += hc.gen_cases(ctx, 2, [N], 5, prefix="x%d_" % N)
+    ctx.extra["transform_lengths"] = sorted(set(c.N for c in cases))
     dis = run_cases(ctx, cases, coq)
     ctx.sample(cases[0].describe())
     if len(cases) > 3:
@@ -132,6 +156,8 @@ def run(ctx, only=None):
         "(monitored through the footprints)",
         "the transforms, the impedance product, the scaling and the CSR cell formula are abstract in the model: the theorem holds whatever they compute "
         "(their arithmetic is C06/C07)",
+        "both objects execute the same FFTW plans (same process, wisdom shared through XDG_DATA_HOME); processes that create their own wisdom may "
+        "get different plans, hence different rounding - outside the model",
         "OpenCL/clFFT path not compiled, not modelled"]
     ctx.trusted.add("harness/impl_hist.cpp (private-member access, probe object with poison patterns), lib/hist_cases.py")
     conclude(ctx, coq, dis)
